@@ -807,9 +807,8 @@ func psGenServerStream(rng *rand.Rand, w *psWorld, ids []desync.ChunkID) ([]byte
 	// everything the client may try to decode
 	for _, off := range psBoundaries(b) {
 		if off+16 <= len(b) && binary.LittleEndian.Uint64(b[off+8:]) == desync.CaProtocolChunk {
-			l := int(binary.LittleEndian.Uint64(b[off:]))
-			if l >= 56 && off+l <= len(b) {
-				w.z.addDec(b[off+56 : off+l])
+			if l := binary.LittleEndian.Uint64(b[off:]); l >= 56 && l <= uint64(len(b)-off) {
+				w.z.addDec(b[off+56 : off+int(l)])
 			}
 		}
 	}
